@@ -181,6 +181,22 @@ def directed_programs():
          (A.APPEND,) * 139 + (A.STOP,)),
         ("deep-dicts-as-result", (g("vp_sink", "hit"), A.EMPTY_TUPLE, A.REDUCE, A.POP) + (A.EMPTY_DICT, A.BININT1(0)) * 120 + (A.NONE,) +
          (A.SETITEM,) * 120 + (A.STOP,)),
+        # opcodes the pinned tree refuses (vacuous there): if a tree models them, it must model what the VM does.
+        # PERSID hands the raw text of the line to persistent_load (no escape processing); extension codes resolve
+        # through find_class (code 1 = vp_sink.hit, registered by vp.refvm) - every time, whatever was resolved before
+        ("persid-backslashes", (asm.Sym("PERSID(C:\\models\\new\\table.bin)", b"PC:\\models\\new\\table.bin\n", "push", "o"), A.STOP)),
+        ("persid-escapes", (A.MARK, asm.Sym("PERSID(a\\tb)", b"Pa\\tb\n", "push", "o"), asm.Sym("PERSID(\\x41)", b"P\\x41\n", "push", "o"),
+                            asm.Sym("PERSID(q'q)", b"Pq'q\n", "push", "o"), A.LIST, A.STOP)),
+        ("persid-then-call", (g("vp_sink", "hit"), asm.Sym("PERSID(k\\n)", b"Pk\\n\n", "push", "o"), A.TUPLE1, A.REDUCE, A.STOP)),
+        ("ext1-call", (A.PROTO(2), A.EXT1(1), A.EMPTY_TUPLE, A.REDUCE, A.STOP)),
+        ("ext2-call-dropped", (A.PROTO(2), asm.Sym("EXT2(1)", b"\x83\x01\x00", "push", "o"), A.NONE, A.TUPLE1, A.REDUCE, A.POP, A.NONE, A.STOP)),
+        ("ext4-import-only", (A.PROTO(2), asm.Sym("EXT4(1)", b"\x84\x01\x00\x00\x00", "push", "o"), A.STOP)),
+        ("ext1-twice", (A.PROTO(2), A.EXT1(1), A.EMPTY_TUPLE, A.REDUCE, A.EXT1(1), A.EMPTY_TUPLE, A.REDUCE, A.TUPLE2, A.STOP)),
+        ("ext1-in-list", (A.PROTO(2), A.EMPTY_LIST, A.BININT1(1), A.APPEND, A.EXT1(1), A.APPEND, A.STOP)),
+        ("bytearray8-result", (A.PROTO(5), A.BYTEARRAY8(b"abc"), A.STOP)),
+        ("bytearray8-arg", (A.PROTO(5), g("vp_sink", "hit"), A.BYTEARRAY8(b"abc"), A.TUPLE1, A.REDUCE, A.STOP)),
+        ("readonly-buffer-in-list", (A.PROTO(5), A.MARK, A.SHORT_BINBYTES(b"xy"), asm.Sym("READONLY_BUFFER", b"\x98", "nop"), A.BININT1(1), A.LIST, A.STOP)),
+        ("readonly-buffer-bytearray", (A.PROTO(5), A.BYTEARRAY8(b"xy"), asm.Sym("READONLY_BUFFER", b"\x98", "nop"), A.NONE, A.TUPLE2, A.STOP)),
         ("nonident-global", (A.SBU("not an identifier"), A.SBU("x y"), A.STACK_GLOBAL, A.STOP)),
         ("nonident-quote", (A.SBU("a'b"), A.SBU("c"), A.STACK_GLOBAL, A.EMPTY_TUPLE, A.REDUCE, A.STOP)),
         ("dotted-attr", (A.SBU("vp_sink"), A.SBU("K.method"), A.STACK_GLOBAL, A.STOP)),
